@@ -214,7 +214,7 @@ func c37UnaryTokens(r *Rng) []string {
 
 func c37Gen(g *Gen) {
 	r := g.Rng
-	n := g.N(1200, 25000)
+	n := g.N(2000, 25000)
 	for i := 0; i < n; i++ {
 		lines := []string{"hist " + strconv.Itoa(r.Range(1, 3))}
 		type lab struct {
@@ -244,9 +244,35 @@ func c37Gen(g *Gen) {
 			case x < 60:
 				t := c37UnaryTokens(r)
 				lines = append(lines, strings.Join(append([]string{"H", mode, "U", t[0], t[1], XS(rid)}, t[2:]...), " "))
-			case x < 75 || len(labs) == 0:
+			case x < 72 || len(labs) == 0:
 				method := Pick(r, famStreamMethods)
 				s, producer := c06Script(r, method)
+				if r.Chance(60) { // a stream that certainly gets under way: fitting state, clean first turns
+					s.Init = famInit{Kind: "ok", Hook: Pick(r, []string{"absent", "ok", "panic"}), Header: s.Init.Header, InSch: "-"}
+					if s.Init.Header == "" {
+						s.Init.Header = "-"
+					}
+					switch {
+					case strings.HasPrefix(method, "p_"):
+						s.Init.State, producer = "prod", true
+					case strings.HasPrefix(method, "e_"):
+						s.Init.State, producer = "exch", false
+					default:
+						producer = r.Bool()
+						s.Init.State = map[bool]string{true: "prod", false: "exch"}[producer]
+					}
+					if method == "d_hdr" && !producer {
+						s.Init.InSch = "decl"
+					}
+					for k := range s.Turns {
+						if k < 3 {
+							s.Turns[k] = c06GoodTurn(r)
+						}
+					}
+					if len(s.Turns) < 3 && r.Chance(70) {
+						s.Rest = c06GoodTurn(r)
+					}
+				}
 				enc := "1"
 				if s.Init.Kind == "ok" && r.Chance(10) && (s.Init.State == "prod" || s.Init.State == "exch") {
 					enc = "0"
